@@ -668,7 +668,7 @@ theorem PairsOK_nil (C : Ref → Bytes) (s : St) : PairsOK C s [] := fun _ h => 
 
 /-- what a `writeAZip` call can leave behind -/
 def ZipOut.Sound (C : Ref → Bytes) (s : St) : ZipOut → Prop
-  | .stored s' _ _ _ _ => Inv C s' ∧ SameView s s'
+  | .stored s' _ _ _ _ _ _ => Inv C s' ∧ SameView s s'
   | .fail s' _ => Inv C s' ∧ SameView s s'
   | .retry _ => True
 
@@ -761,7 +761,7 @@ theorem writeAZip_sound {C : Ref → Bytes} (env : PackEnv) (nameOK : Bool) (tbl
 /-- what `pack` leaves behind, for every fuel, budget and layout values -/
 theorem packLoop_sound {C : Ref → Bytes} (env : PackEnv) (nameOK : Bool) (tbl : List Chunk) (whole : Ref) (wsz : Nat) :
     ∀ (fuel : Nat) (s0 s : St) (bud : Budget) (remain : List Ref) (n wbw : Nat) (trunc : Option Ref)
-      (lays : List ZipLayout) (t o : Nat) (zs : List (Ref × Nat)),
+      (lays : List ZipLayout) (t o : Nat) (zs : List ZipRec),
       Inv C s → SameView s0 s → TblOK C s tbl →
       Inv C (packLoop env nameOK tbl whole wsz fuel s bud remain n wbw trunc lays t o zs).s ∧
       SameView s0 (packLoop env nameOK tbl whole wsz fuel s bud remain n wbw trunc lays t o zs).s
@@ -779,7 +779,7 @@ theorem packLoop_sound {C : Ref → Bytes} (env : PackEnv) (nameOK : Bool) (tbl 
         rw [heq] at hs
         exact ⟨hs.1, v.trans hs.2⟩
       · exact packLoop_sound env nameOK tbl whole wsz fuel s0 s bud remain n wbw _ _ _ _ _ h v ht
-      · rename_i s' bud' zr k len heq
+      · rename_i s' bud' zr k len ds zsz heq
         rw [heq] at hs
         exact packLoop_sound env nameOK tbl whole wsz fuel s0 s' bud' _ _ _ _ _ _ _ _ hs.1 (v.trans hs.2) (ht.sameView hs.2)
 
